@@ -5,13 +5,20 @@
 
 package decision
 
+// C13: every header the pipeline produced is handed over with all its values: for every key of the
+// context's header map the response header is cleared and then gets one Add per value (the proxy's
+// Rewrite hook does the same on the outgoing request; the Envoy OK response carries the values joined
+// by "," - the same header by RFC 9110, 5.3).
 // C01 (decision service): the accepted status is written only when no pipeline error is recorded;
 // otherwise the pipeline error is returned and no status is written (the error handler answers).
 // C12: a `WWW-Authenticate` challenge recorded by the www_authenticate error handler (it puts it into
 // the context's response headers and records ErrAuthentication) has to reach the client with the 401:
 // when the pipeline error is handed back, the challenge must have been put on the response.
 //@ func (*requestContext).Finalize
-//@   props C01 C12
+//@   props C01 C12 C13
 //@   ensures old(r.RequestContext.err) != nil ==> ret0 == old(r.RequestContext.err) && wh.n == old(wh.n)
 //@   ensures old(r.RequestContext.err) == nil ==> ret0 == nil && wh.n == old(wh.n) + 1 && wh.arg0[old(wh.n)] == old(r.rw) && wh.arg1[old(wh.n)] == old(r.responseCode)
 //@   ensures old(r.RequestContext.err) != nil && headerGet(old(r.RequestContext.upstreamHeaders), "WWW-Authenticate", old(hver)) != "" ==> hset.n > old(hset.n)
+//@   loop 1 invariant hadd.n - atloop(hadd.n) == idx + 1
+//@   assert at call Del#1: mapnext.n > old(mapnext.n) && iface(callarg1) == mapnext.arg0[mapnext.n - 1]
+//@   assert at call Add#1: iface(callarg1) == mapnext.arg0[mapnext.n - 1]
